@@ -206,7 +206,8 @@ fn protocols(args: &Args) -> i32 {
 	let _ = std::fs::remove_dir_all(&dir);
 	std::fs::create_dir_all(&dir).unwrap();
 	let chain = ck::init_chain(&format!("{}/node", dir)).unwrap();
-	let blocks = ck::grow_chain(&chain, 1, 9, 2);
+	// long enough for Chain::compact() to really compact (head >= tail + horizon 20 + 60)
+	let blocks = ck::grow_chain(&chain, 1, 84, 2);
 	let tx_addr = Arc::as_ptr(&chain.txhashset()) as *const () as usize;
 	let hp_addr = Arc::as_ptr(&chain.header_pmmr()) as *const () as usize;
 	// material for the calls
